@@ -794,6 +794,8 @@ def check(ctx):
     series_step(ctx, o3, S, 'sense', Normalizer(P, S))
     series_step(ctx, o3, OS, 'sense', Normalizer(P, OS))
     series_step(ctx, o3, PS, '_periodic_sense', Normalizer(P, PS))
+    # ... and the public sense() of a periodic sensor is a measurement like any other: the time series must move with the probe series
+    series_step(ctx, o3, PS, 'sense', Normalizer(P, PS))
     for c in (S, PS, OS):
         series_init(ctx, o3, c)
     o4 = Ob('C19.4', 'K2', 'sense: collect once, then each on-sense callback once in registration order with (sensor, now, last values)')
